@@ -127,6 +127,19 @@ func registerSpecBuiltins(x *Exec) {
 		b := x.evalSpec0(sc, n.Args[1], nil)
 		return boolV(x.bytesEqual(sc.st, a, b))
 	}
+	// dyn(x, "T"): the payload of interface value x viewed as a value of (pointer) type T
+	x.specBuiltins["dyn"] = func(sc *specScope, n *ECall) Value {
+		a := x.evalSpec0(sc, n.Args[0], nil)
+		lit, ok := n.Args[1].(*ELit)
+		if !ok {
+			unsup("spec: dyn needs a type name string")
+		}
+		T := x.lookupType(lit.Text)
+		if T == nil {
+			unsup("spec: dyn: unknown type %s", lit.Text)
+		}
+		return x.unbox(sc.st, Value{T: a.T, L: a.L}, T)
+	}
 	// iserr(e): e != nil for error interface
 	x.specBuiltins["iserr"] = func(sc *specScope, n *ECall) Value {
 		a := x.evalSpec0(sc, n.Args[0], nil)
